@@ -35,6 +35,8 @@ type Result struct {
 	Ops       []string       `json:"ops,omitempty"`
 	Config    string         `json:"config,omitempty"`
 	Decisions int            `json:"decisions,omitempty"`
+	Owned     bool           `json:"owned,omitempty"` // the violation belongs to the property being checked
+	Cases     int            `json:"cases,omitempty"` // evaluations inside this run (crash states, fault points)
 }
 
 // Profiles per property for the seq engine.
@@ -148,11 +150,28 @@ func SortedStatKeys(m map[string]int) []string {
 	return out
 }
 
-// Run dispatches on the scenario.
+// Run dispatches on the scenario and attributes the violation.
 func Run(p Params) *Result {
+	var r *Result
 	switch p.Scenario {
 	case "seq", "":
-		return RunSeq(p)
+		r = RunSeq(p)
+		// C14: a divergence that disappears when the harness stops scribbling
+		// over the memory it passed in / got back is an aliasing violation
+		if p.Prop == "C14" && r.V != nil && !p.NoScrib && r.V.Tag != "panic" && r.V.Tag != "deadlock" {
+			q := p
+			q.NoScrib = true
+			if r2 := RunSeq(q); r2.V == nil {
+				r.V.Sig = "alias:" + r.V.Sig
+				r.V.Tag = "alias"
+				r.V.Msg = "only when the caller mutates objects it passed in or got back: " + r.V.Msg
+			}
+		}
+	default:
+		return &Result{Params: p, Incon: "unknown scenario " + p.Scenario}
 	}
-	return &Result{Params: p, Incon: "unknown scenario " + p.Scenario}
+	if r.V != nil {
+		r.Owned = OwnsTag(p.Prop, r.V.Tag) || r.V.Tag == "panic"
+	}
+	return r
 }
